@@ -110,6 +110,42 @@ def model_check(chk, module, cfg=None, workers=4, timeout=1500, env=None, expect
     return r
 
 
+def apalache_inductive(chk, module, cinit="ConstInit", guard_cinit=None, timeout=900):
+    """Unbounded design-level safety: Apalache shows `IndInv` inductive (base case, step) and that it implies `Props`;
+    with `guard_cinit` the step is expected to FAIL (vacuity guard). Symbolic, so no state counts."""
+    import shutil
+    exe = shutil.which("apalache-mc")
+    if not exe:
+        chk.notes.append("apalache-mc not found: the inductive-invariant runs for %s were skipped (TLC's bounded runs stand)" % module)
+        return
+    out = os.path.join(workdir(chk.pid, clean=False), "apalache")
+    runs = [("base: Init => IndInv", ["--cinit=" + cinit, "--init=Init", "--inv=IndInv", "--length=0"], False),
+            ("step: IndInv /\\ Next => IndInv'", ["--cinit=" + cinit, "--init=IndInit", "--inv=IndInv", "--length=1"], False),
+            ("IndInv => Props", ["--cinit=" + cinit, "--init=IndInit", "--inv=Props", "--length=0"], False)]
+    if guard_cinit:
+        runs.append(("guard: step under %s" % guard_cinit, ["--cinit=" + guard_cinit, "--init=IndInit", "--inv=IndInv", "--length=1"], True))
+    for name, args, expect_error in runs:
+        t = time.time()
+        try:
+            r = subprocess.run([exe, "check", "--out-dir=" + out] + args + [os.path.join(SPEC, module + ".tla")], capture_output=True, text=True, timeout=timeout, cwd=out if os.path.isdir(out) else None)
+        except subprocess.TimeoutExpired:
+            chk.notes.append("apalache timed out on %s (%s); TLC's bounded runs stand" % (module, name))
+            continue
+        ok = "The outcome is: NoError" in r.stdout
+        err = "The outcome is: Error" in r.stdout
+        if not ok and not err:
+            sys.stderr.write(r.stdout[-2000:])
+            tool_error("apalache failed on %s (%s)" % (module, name))
+        if expect_error and ok:
+            tool_error("vacuity guard: apalache was expected to refute %s (%s)" % (module, name))
+        if not expect_error and err:
+            sys.stderr.write(r.stdout[-3000:])
+            tool_error("apalache refuted %s (%s): the invariant is not inductive" % (module, name))
+        chk.coverage.setdefault("model_runs", []).append({"module": module, "cfg": "apalache " + name, "distinct_states": 0, "states_generated": 0, "wall_s": round(time.time() - t, 1),
+                                                          "counterexample_expected": expect_error, "engine": "apalache 0.58 (symbolic, unbounded in the number of commands)"})
+    shutil.rmtree(out, ignore_errors=True)
+
+
 def special_counts(path):
     """Measured non-triviality of a move trace: positions whose legal moves include a special move."""
     n = sp = 0
